@@ -333,18 +333,25 @@ theorem evalCallExpr_sym_simF (x : String) (hx : okSym x = true) (n : Nat) {m : 
 
 /-- an operand that is not a symbol, given the segment lemma for it at the same reference fuel -/
 theorem evalCallExpr_nonsym_simF {n : Nat} (hE : FClaimE n) (e : Expr) (he : Ff false "" e = true) (hns : ∀ x, e ≠ .sym x)
-    {m : Nat → Nat} {s : St} {rs : Ref.St} {env : Nat} (hrel : RelF m s rs env) :
-    EvalOkF e m s rs env (Ref.eval n e env rs) := by
-  obtain ⟨code, t, gs', hc, hne, hk⟩ := compile_total_Ff false "" e he (isFnScope s) {}
-    { fns := s.fns, loops := s.loops, loopstack := s.loopstack, live := s.linear } (Or.inl rfl)
-  have hgs := hk.2 rfl
-  subst hgs
-  have hgen : (runGen (compile (isFnScope s) {} e)).run s = (.ok (code, t), s) :=
-    run_runGen_any _ s _ _ hc rfl
+    {m : Nat → Nat} {s0 : St} {rs : Ref.St} {env : Nat} (hrel0 : RelF m s0 rs env) :
+    EvalOkF e m s0 rs env (Ref.eval n e env rs) := by
+  obtain ⟨code, t, gs', hc, hne, hk⟩ := compile_total_Ff false "" e he (isFnScope s0) {}
+    { fns := s0.fns, loops := s0.loops, loopstack := s0.loopstack, live := s0.linear } (Or.inl rfl)
+  have hfns : gs'.fns = s0.fns := hk.2 rfl
+  -- the generator may have registered loop records (a `for` inside the operand): `s` is `s0` with them
+  have hgen : (runGen (compile (isFnScope s0) {} e)).run s0 = (.ok (code, t), withLoops s0 gs') :=
+    run_runGen_any _ s0 _ gs' hc hfns
+  generalize hs : withLoops s0 gs' = s at hgen
+  have hrel : RelF m s rs env := by
+    subst hs; exact hrel0.of_same rfl rfl rfl rfl rfl rfl hrel0.heap hrel0.trace hrel0.hok
+  have hs0 : FrameF s0 s ∧ s.data = s0.data ∧ s.pc = s0.pc := by
+    subst hs
+    exact ⟨⟨⟨rfl, rfl, rfl, rfl, Nat.le_refl _, fun _ _ => rfl, hk.1.loopsLen, hk.1.loopsGet⟩, Nat.le_refl _, fun _ _ => rfl⟩,
+      rfl, rfl⟩
   have hseg := seg_inHelper s code
-  have hsim := hE false "" e he (isFnScope s) {} _ ((code, t), _) hc (Or.inl rfl) m (inHelper s code) rs env [] [.ret]
+  have hsim := hE false "" e he (isFnScope s0) {} _ ((code, t), _) hc (Or.inl rfl) m (inHelper s code) rs env [] [.ret]
     (relF_inHelper hrel code) (fun h => by cases h) hseg
-  have hunf := fun fuel => evalCallExpr_nonsym fuel e hns s s code t hgen hne
+  have hunf := fun fuel => evalCallExpr_nonsym fuel e hns s0 s code t hgen hne
   cases hres : Ref.eval n e env rs with
   | ok v' rs' =>
     rw [hres] at hsim
@@ -361,9 +368,11 @@ theorem evalCallExpr_nonsym_simF {n : Nat} (hE : FClaimE n) (e : Expr) (he : Ff 
       (fr4.fns id (by show id < (s.fns ++ [_]).length; simp; omega)).trans (fnOf_inHelper_old s code id hid)
     have hframe : FrameF s { s4 with addr := s.addr, curfunc := s.curfunc, pc := s.pc, data := s.data } :=
       ⟨⟨fr4.linear, rfl, rfl, fr4.susp, hfl, hfo, fr4.loopsLen, fr4.loops⟩, fr4.scLen, fr4.flags⟩
+    have hfn0 : s.fns.length = s0.fns.length := by subst hs; rfl
     refine ⟨M + 2, { s4 with addr := s.addr, curfunc := s.curfunc, pc := s.pc, data := s.data }, m4, v,
-      fun fuel hf => ?_, rfl, rfl, hv, ?_, fun id hid => hm4 id (by show id < (s.fns ++ [_]).length; simp; omega),
-      ext4, hframe, ?_⟩
+      fun fuel hf => ?_, hs0.2.1, hs0.2.2, hv, ?_,
+      fun id hid => hm4 id (by show id < (s.fns ++ [_]).length; simp; omega),
+      ext4, hs0.1.trans hframe, ?_⟩
     · obtain ⟨f, rfl⟩ : ∃ f, fuel = f + 2 := ⟨fuel - 2, by omega⟩
       rw [hunf f, hM f (by omega)]
       simp only [hbal]
@@ -1341,160 +1350,5 @@ theorem simF_defn {n : Nat} {self : String} (name : String) (ps : List String) (
     · subst hs2; subst hs1
       show s.pc + 1 + 1 + 1 = _; simp; omega
     · subst hs2; subst hs1; rfl
-
-/-! ## The expression step, the induction -/
-
-theorem fclaimE_succ {n : Nat} (hE : FClaimE n) (hB : FClaimB n) (hC : FClaimC n) (hA : FClaimA n) (hU : FClaimU n) :
-    FClaimE (n + 1) := by
-  intro fnOk self e he isFn c gs r hc hfn m s rs env pre post hrel hgen hseg
-  cases e with
-  | int x =>
-    rw [compile] at hc; simp only [g_pure_ok] at hc; subst hc
-    rw [Ref.eval]; exact simF_push _ (fun _ _ _ => rfl) hrel hseg
-  | bool x =>
-    rw [compile] at hc; simp only [g_pure_ok] at hc; subst hc
-    rw [Ref.eval]; exact simF_push _ (fun _ _ _ => rfl) hrel hseg
-  | str x =>
-    rw [compile] at hc; simp only [g_pure_ok] at hc; subst hc
-    rw [Ref.eval]; exact simF_push _ (fun _ _ _ => rfl) hrel hseg
-  | nilLit =>
-    rw [compile] at hc; simp only [g_pure_ok] at hc; subst hc
-    rw [Ref.eval]; exact simF_push _ (fun _ _ _ => rfl) hrel hseg
-  | sym x =>
-    rw [compile] at hc; simp only [g_pure_ok] at hc; subst hc
-    exact simF_sym x n (by simpa [Ff] using he) hrel hseg
-  | begin_ es =>
-    rw [Ff] at he
-    cases es with
-    | nil =>
-      rw [compile] at hc; simp only [g_pure_ok] at hc; subst hc
-      rw [Ref.eval]
-      cases n with
-      | zero => rw [Ref.evalBegin]; trivial
-      | succ k =>
-        rw [Ref.evalBegin]
-        · exact simF_push _ (fun _ _ _ => rfl) hrel hseg
-        · omega
-    | cons e0 es0 =>
-      rw [compile] at hc
-      · rw [Ref.eval]
-        exact hB fnOk self (e0 :: es0) (by simp) he isFn c gs r hc hfn m s rs env pre post hrel hgen hseg
-      · intro hh; cases hh
-  | def_ x e1 =>
-    rw [Ff] at he
-    simp only [Bool.and_eq_true] at he
-    rw [compile] at hc
-    simp only [g_bind_ok, g_pure_ok] at hc
-    obtain ⟨ra, gs1, ha, rfl⟩ := hc
-    rw [Ref.eval]
-    have ih := hE fnOk self e1 he.2 isFn _ gs (ra, gs1) ha hfn m s rs env pre ([.dup, .popStackPutEnv x] ++ post) hrel
-      hgen (hseg.refocus (by simp))
-    cases h1 : Ref.eval n e1 env rs with
-    | ok v rs1 =>
-      rw [h1] at ih
-      obtain ⟨s1, m1, w1, r1, l1, hv1, rel1, hm1, ext1, fr1, hcl1⟩ := ih
-      subst hv1
-      exact simF_def_tail hseg he.1 r1 l1 rel1 hm1 ext1 fr1 hcl1
-    | err rs1 => rw [h1] at ih; exact SimF.prefix ih (fun _ _ hh => by cases hh)
-    | timeout => trivial
-    | brk l rs1 => rw [h1] at ih; exact ih.elim
-    | cont l rs1 => rw [h1] at ih; exact ih.elim
-  | set_ x e1 =>
-    rw [Ff] at he
-    simp only [Bool.and_eq_true] at he
-    rw [compile] at hc
-    simp only [g_bind_ok, g_pure_ok] at hc
-    obtain ⟨ra, gs1, ha, rfl⟩ := hc
-    rw [Ref.eval]
-    have ih := hE fnOk self e1 he.2 isFn _ gs (ra, gs1) ha hfn m s rs env pre ([.dup, .update x] ++ post) hrel
-      hgen (hseg.refocus (by simp))
-    cases h1 : Ref.eval n e1 env rs with
-    | ok v rs1 =>
-      rw [h1] at ih
-      obtain ⟨s1, m1, w1, r1, l1, hv1, rel1, hm1, ext1, fr1, hcl1⟩ := ih
-      subst hv1
-      exact simF_set_tail hseg he.1 r1 l1 rel1 hm1 ext1 fr1 hcl1
-    | err rs1 => rw [h1] at ih; exact SimF.prefix ih (fun _ _ hh => by cases hh)
-    | timeout => trivial
-    | brk l rs1 => rw [h1] at ih; exact ih.elim
-    | cont l rs1 => rw [h1] at ih; exact ih.elim
-  | cond arms d =>
-    rw [Ff] at he
-    simp only [Bool.and_eq_true] at he
-    rw [compile] at hc
-    simp only [g_bind_ok, g_pure_ok] at hc
-    obtain ⟨rd, gs1, hd, as, gs2, has, rfl⟩ := hc
-    have hk1 := compile_keep_Ff he.2 hd hfn
-    have hk2 := compileArms_keep_Ff he.1 has hfn
-    rw [Ref.eval]
-    exact hC fnOk self arms d he.1 he.2 isFn c gs1 (as, gs2) gs (rd, gs1) has hd hfn m s rs env pre post hrel
-      (fun h => (hgen h).rest hk1.1) (fun h => (hgen h).first hk2.1) hseg
-  | call f args =>
-    cases f with
-    | sym h =>
-      rw [Ff] at he
-      simp only [Bool.and_eq_true] at he
-      rw [compile] at hc
-      have hne := ff_call_ne hfn he.1.1.1 he.1.1.2 he.1.2
-      simp only [hne, Bool.and_false, Bool.false_eq_true, if_false, g_pure_ok] at hc
-      subst hc
-      have hok : okSym h = true := by
-        have := he.1.2; unfold okHead at this; simp only [Bool.and_eq_true] at this; exact this.1
-      cases n with
-      | zero =>
-        rw [Ref.eval, Ref.eval]; trivial
-      | succ k => exact simF_call hA hU hok he.2 hrel hseg
-    | _ => simp [Ff] at he
-  | fn ps rest body =>
-    have hfo : fnOk = true ∧ rest = none := by
-      rw [Ff] at he
-      simp only [Bool.and_eq_true, Option.isNone_iff_eq_none] at he
-      exact ⟨he.1.1.1.1.1, he.1.1.1.1.2⟩
-    obtain ⟨rfl, rfl⟩ := hfo
-    exact simF_fn ps body he isFn c gs r hc hrel (hgen rfl) hseg
-  | defn name ps rest body =>
-    have hfo : fnOk = true ∧ rest = none := by
-      rw [Ff] at he
-      simp only [Bool.and_eq_true, Option.isNone_iff_eq_none] at he
-      exact ⟨he.1.1.1.1.1.1.1, he.1.1.1.1.1.1.2⟩
-    obtain ⟨rfl, rfl⟩ := hfo
-    exact simF_defn name ps body he isFn c gs r hc hrel (hgen rfl) hseg
-  | and_ _ | or_ _ | let_ _ _ _ | newScope _ | arr _ | for_ _ _ _ _ _ | break_ _ | continue_ _
-  | assign _ _ | bad _ => simp [Ff] at he
-
-theorem fclaims_zero : FClaimE 0 ∧ FClaimB 0 ∧ FClaimC 0 ∧ FClaimA 0 ∧ FClaimU 0 := by
-  refine ⟨?_, ?_, ?_, ?_, ?_⟩
-  · intro fnOk self e he isFn c gs r hc hfn m s rs env pre post hrel hgen hseg
-    rw [Ref.eval]; trivial
-  · intro fnOk self es hne hes isFn c gs r hc hfn m s rs env pre post hrel hgen hseg
-    rw [Ref.evalBegin]; trivial
-  · intro fnOk self arms d harms hd isFn c gs r gs0 rd hc hcd hfn m s rs env pre post hrel hgen hgend hseg
-    rw [Ref.evalCond]; trivial
-  · intro args hargs fo hfo i m s rs env hrel
-    rw [Ref.evalArgs]; trivial
-  · intro m s₁ rs₁ env vid vs D hrel hg hd hvs hlen
-    rw [Ref.applyFn]; trivial
-
-theorem fclaims : ∀ n, FClaimE n ∧ FClaimB n ∧ FClaimC n ∧ FClaimA n ∧ FClaimU n
-  | 0 => fclaims_zero
-  | n + 1 => by
-    obtain ⟨hE, hB, hC, hA, hU⟩ := fclaims n
-    exact ⟨fclaimE_succ hE hB hC hA hU, fclaimB_succ hE hB, fclaimC_succ hE hC, fclaimA_succ hE hA, fclaimU_succ hB⟩
-
-/-- **Segment lemma for F2 expressions.** -/
-theorem segment_Ff (fnOk : Bool) (self : String) (e : Expr) (he : Ff fnOk self e = true) (isFn : Nat → Bool) (c : Ctx)
-    (hfn : FnameOk self c) (gs : GS) (r : (List Instr × Bool) × GS)
-    (hc : (compile isFn c e).run gs = .ok r) (m : Nat → Nat) (s : St) (rs : Ref.St) (env : Nat) (pre post : List Instr)
-    (hrel : RelF m s rs env) (hgen : fnOk = true → GenOk gs r.2 s) (hseg : Seg s pre r.1.1 post) (n : Nat) :
-    SimF r.1.1 m s rs env (Ref.eval n e env rs) :=
-  (fclaims n).1 fnOk self e he isFn c gs r hc hfn m s rs env pre post hrel hgen hseg
-
-/-- … and for statement lists (a program text, a function body) -/
-theorem segment_Ff_begin (fnOk : Bool) (self : String) (es : List Expr) (hne : es ≠ []) (he : FfList fnOk self es = true)
-    (isFn : Nat → Bool) (c : Ctx) (hfn : FnameOk self c) (gs : GS) (r : (List Instr × Bool) × GS)
-    (hc : (compileBegin isFn c es).run gs = .ok r) (m : Nat → Nat) (s : St) (rs : Ref.St) (env : Nat)
-    (pre post : List Instr) (hrel : RelF m s rs env) (hgen : fnOk = true → GenOk gs r.2 s) (hseg : Seg s pre r.1.1 post)
-    (n : Nat) : SimF r.1.1 m s rs env (Ref.evalBegin n es env rs) :=
-  (fclaims n).2.1 fnOk self es hne he isFn c gs r hc hfn m s rs env pre post hrel hgen hseg
 
 end ZygoVerif.Sim
